@@ -200,7 +200,7 @@ STEPS = {
     '100*l':    ('list', 'list', '100 * %(E)s'),
     'l.ins':    ('list', 'list', '%(E)s.insert(0, 7)'),
     'l.insl':   ('list', 'list', '%(E)s.insert(0, %(E)s)'),
-    'l.acc':    ('list', 'list', '[%(E)s, %(E)s, %(E)s].accumulate($1 + $2).toList().last()'),
+    'l.acc':    ('list', 'list', '[%(E)s, %(E)s, %(E)s].accumulate(($1 + $2).toList()).toList().last()'),
     'l>list':   ('list', 'list', 'list(%(E)s, %(E)s)'),
     'l>str':    ('list', 'str', "%(E)s.select('a').join('a')"),
     'l>dict':   ('list', 'dict', 'dict(a => %(E)s, b => %(E)s)'),
